@@ -56,6 +56,17 @@ Theorem C17_incremental : forall fl mode t ops,
 Proof. exact edits_exact. Qed.
 Print Assumptions C17_incremental.
 
+(** Full strength including reloads, for the model with the reload repaired
+    ([fl = true]: a stored mode field is counted even when its permission bits
+    are zero): creation, then ANY sequence of adds, replacements, removals and
+    reloads of the serialised block (NewBasicDirectoryFromNode). *)
+Theorem C17_history_fixed : forall mode t ops,
+  wf_gtime t -> Forall wf_op ops ->
+  exists d, run true (new_dir mode t) ops = Some d /\
+            est d = blen (node_bytes d) /\ 0 <= est d /\ total d = blen (links d).
+Proof. exact history_exact_fixed. Qed.
+Print Assumptions C17_history_fixed.
+
 (** Finding C17-1 (model of today's NewBasicDirectoryFromNode, [fl = false]):
     reloading the serialised block of a directory whose stored mode has no
     permission bits yields an estimate that is NOT the block length, while the
